@@ -102,6 +102,8 @@ abbrev M := StateT St (Except Err)
 def isExternalRef (ref : String) (parentIsExternal : Bool) : Bool :=
   ref != "" && (!ref.startsWith "#/components/" || parentIsExternal)
 
+def wholeDocS (ref : String) : Bool := ref != "" && !ref.contains '#'
+
 def flag (f : String) : M Unit := modify fun s => if s.flags.contains f then s else { s with flags := f :: s.flags }
 
 def tick : M Unit := do
@@ -143,16 +145,20 @@ def addToSpec (c : Nat) (pext : Bool) : M Bool := do
   if !isExternalRef cur pext then
     modify fun s => { s with log := .notExternal c pext :: s.log }
     return false
-  if pext && cur.startsWith "#/components/" then flag "flag.parent_external_decides"
   let info : RefInfo := { ref := cur.toList, refPath := cell.refPath.map fun (a, b) => (a.toList, b.toList), coll := cell.k.toList }
   match defaultName (rootInfo h s cell.k) info with
   | .panic => throw (.panic "DefaultRefNameResolver")
   | .fuel => throw .fuel
   | .name nm amb =>
     let name := String.ofList nm
-    if amb then flag "root.case2.ambiguous"
-    if (referencesComponentInRoot (rootInfo h s cell.k) info).1.isSome then flag "root.component_match"
-    if name == "" then flag "name.empty"
+    let early : M Unit := do
+      if pext && cur.startsWith "#/components/" then flag "flag.parent_external_decides"
+      if amb then flag "root.case2.ambiguous"
+      if (referencesComponentInRoot (rootInfo h s cell.k) info).1.isSome then flag "root.component_match"
+      if name == "" then flag "name.empty"
+      if cell.refPath.map (·.1) == h.root then flag "name.same_file_as_root"
+      if !(wholeDocS cur) && !cur.startsWith "#" then flag "ref.remote_element"
+      if wholeDocS cur then flag "ref.whole_document"
     let newRef := "#/components/" ++ cell.k ++ "/" ++ name
     let existing := (compsOf s cell.k).find? (·.1 == name)
     if cell.k == "callbacks" then
@@ -161,18 +167,21 @@ def addToSpec (c : Nat) (pext : Bool) : M Bool := do
       let s1 := setComp s cell.k name (.fresh cell.val)
       set { s1 with refs := s1.refs.set! c newRef, ambiguous := s1.ambiguous || amb,
                     log := (if existing.isSome then Ev.reused c cell.k name same else Ev.added c cell.k name) :: s1.log }
+      early
       if existing.isSome then flag "add.callback_overwrite" else flag "add.new"
       return true
     match existing with
     | some (_, e) =>
       let same := ccOf h (compVal h s e) == ccOf h cell.val
       set { s with refs := s.refs.set! c newRef, ambiguous := s.ambiguous || amb, log := Ev.reused c cell.k name same :: s.log }
+      early
       flag "add.name_exists"
       if !same then flag "add.name_exists_other_content"
       return true
     | none =>
       let s1 := setComp s cell.k name (.fresh cell.val)
       set { s1 with refs := s1.refs.set! c newRef, ambiguous := s1.ambiguous || amb, log := Ev.added c cell.k name :: s1.log }
+      early
       flag "add.new"
       return true
 
@@ -316,9 +325,9 @@ def derefPaths : Nat → List Nat → Bool → M Unit
     let s ← get
     let pi := h.pis[p]!
     let pathIsExternal := isExternalRef s.pirefs[p]! pext
+    set { s with pirefs := s.pirefs.set! p "" }
     if pext && !pathIsExternal then flag "paths.parent_flag_dropped"
     if pathIsExternal then flag "paths.external_path_item"
-    set { s with pirefs := s.pirefs.set! p "" }
     derefParams n pi.params pathIsExternal
     derefOps n pi.ops pathIsExternal
     derefPaths n rest pext
